@@ -256,6 +256,57 @@ def run_modes(res, scratch, rng):
         s0.discard()
 
 
+def run_vanished_file(res, scratch, rng):
+    """The database file is unlinked by someone else while the database is open: whatever the calls then do
+    (return or raise), they must not leave temporary files behind."""
+    from tinyflux import MeasurementQuery, TagQuery
+
+    for auto in (True, False):
+        cfg = default_config("csv", auto)
+        s = Session(cfg, scratch)
+        w = Watch(s, scratch)
+        try:
+            with quiet_stdout():
+                for _ in range(4):
+                    s.do({"op": "insert", "p": gen.gen_point(rng, gen.MEAS, False)})
+                calls = [
+                    ("update", lambda db: db.update(MeasurementQuery().noop(), tags={"zz": "1"})),
+                    ("remove(no match)", lambda db: db.remove(TagQuery().nokey == "zz")),
+                    ("remove", lambda db: db.remove(MeasurementQuery() == "m0")),
+                    ("drop_measurement", lambda db: db.drop_measurement("m1")),
+                    ("count", lambda db: db.count(MeasurementQuery().noop())),
+                ]
+                for label_, call in calls:
+                    try:
+                        os.unlink(s.path)
+                    except FileNotFoundError:
+                        pass
+                    before = w.snap()
+                    exc = None
+                    try:
+                        call(s.db)
+                    except Exception as e:  # noqa: BLE001
+                        exc = e
+                    after = w.snap()
+                    res.evaluations += 1
+                    res.count("vanished_file_calls")
+                    me = os.path.basename(s.path)
+                    new_db = sorted(set(after["dbdir"]) - set(before["dbdir"]) - {me})
+                    new_tmp = sorted(set(after["tmp"]) - set(before["tmp"]))
+                    if new_db or new_tmp:
+                        res.violate(Violation(
+                            "C15", "operation-left-files-behind",
+                            {"config": cfg_name(cfg), "op": {"op": "call on a database whose file was unlinked", "call": label_},
+                             "class": "vanished-file", "raised": None if exc is None else type(exc).__name__,
+                             "new_in_temp_dir": new_tmp[:4], "new_in_db_dir": new_db[:4]},
+                            replay={"cfg": cfg, "ops": list(s.log), "call": label_},
+                            features={"op": label_, "class": "vanished-file", "where": "tmp" if new_tmp else "dbdir"},
+                        ))
+                        return
+        finally:
+            s.discard()
+
+
 def run(res, tier, seed, shard, nshards):
     res.rule = (
         "seeded histories on CSV databases (auto_index on/off) with a private temp directory; before and after EVERY op "
@@ -270,9 +321,12 @@ def run(res, tier, seed, shard, nshards):
                 run_history(res, cfg, scratch, rng)
         for h in range(max(2, N_HIST[tier] // 3)):
             run_modes(res, scratch, rng_for("C15", tier, seed, shard, "modes", h))
+        for h in range(2 if tier == "quick" else 12):
+            run_vanished_file(res, scratch, rng_for("C15", tier, seed, shard, "vanished", h))
     for k in ("read", "noop-write", "rejected-write"):
         res.require(f"bytes_unchanged_checks.{k}")
     res.require("listing_checks_after_raising_call")
+    res.require("vanished_file_calls")
     res.require("listing_checks")
     res.require("rejected_write_checks")
     for m in ("r", "r+", "a", "w+"):
